@@ -21,7 +21,7 @@ type C01Case struct {
 
 func c01Opt() ragen.GenOpt {
 	o := ragen.GenOpt{
-		Rx:           ragen.RxOpt{Stress: 8, MaxDepth: 2},
+		Rx:           ragen.RxOpt{Stress: 8, MaxDepth: 2, Words: 35},
 		MaxDepth:     3,
 		MaxItems:     7,
 		Flags:        true,
